@@ -134,6 +134,46 @@ func (l *loader) loadDir(path, dir, rel string) (*types.Package, error) {
 	return p, nil
 }
 
+// bufferSizes: the lengths of the receive buffers that must hold whatever the layer below can deliver, as
+// constants `<pkg>_<field>_size` (the length must be a constant expression; otherwise nothing is emitted and the
+// obligation that mentions the constant no longer compiles)
+func bufferSizes(l *loader) []constFact {
+	var out []constFact
+	want := []struct{ rel, field string }{{"tubes", "readBuf"}}
+	for _, w := range want {
+		info := l.infos[w.rel]
+		if info == nil {
+			continue
+		}
+		for _, f := range l.files[w.rel] {
+			ast.Inspect(f, func(n ast.Node) bool {
+				kv, ok := n.(*ast.KeyValueExpr)
+				if !ok {
+					return true
+				}
+				id, ok := kv.Key.(*ast.Ident)
+				if !ok || id.Name != w.field {
+					return true
+				}
+				call, ok := kv.Value.(*ast.CallExpr)
+				if !ok || len(call.Args) < 2 {
+					return true
+				}
+				if fn, ok := call.Fun.(*ast.Ident); !ok || fn.Name != "make" {
+					return true
+				}
+				if tv, ok := info.Types[call.Args[1]]; ok && tv.Value != nil {
+					if iv := constant.ToInt(tv.Value); iv.Kind() == constant.Int && constant.Sign(iv) >= 0 {
+						out = append(out, constFact{w.rel, w.field + "_size", "nat", iv.ExactString()})
+					}
+				}
+				return true
+			})
+		}
+	}
+	return out
+}
+
 type constFact struct {
 	Pkg   string `json:"pkg"`
 	Name  string `json:"name"`
@@ -214,6 +254,8 @@ func main() {
 			}
 		}
 	}
+
+	consts = append(consts, bufferSizes(l)...)
 
 	// remove stale generated files first
 	os.MkdirAll(*out, 0o755)
